@@ -65,7 +65,7 @@ Preds(cols) ==
         cl == cols[Len(cols)]
         P == Cmp("gt", c1, 0)  Q == Cmp("le", c2, 2)  R == Cmp("ne", cl, 1)
     IN IF Focus = "filter"
-       THEN A \cup {And(P, Q), Or(P, Q), Not(P), Not(IsNa(c2)), And(P, Not(R)),
+       THEN A \cup {And(P, Q), Or(P, Q), Not(P), Not(IsNa(c2)), And(P, Not(R)), And(R, P), And(Q, R), And(R, Q),
                     Or(And(P, Q), P), Or(And(P, Q), And(P, R)), Or(And(P, Q), And(R, P)), Or(And(And(P, Q), R), And(P, R)),
                     Or(And(P, Q), And(Not(P), R)), And(Or(P, Q), R), Or(P, IsNa(c2)), Not(Or(P, Q))}
        ELSE ({Cmp("gt", c1, 1), Cmp("ne", cl, 2), And(P, Q), Or(And(P, Q), And(P, R)), CmpCC("lt", c1, c2)} \cap (A \cup {And(P, Q), Or(And(P, Q), And(P, R))}))
